@@ -148,7 +148,7 @@ def accept(wd, b, events, name="c07_trace"):
 
 
 def random_codebase(rng):
-    names = ["a", "b", "src", "x.y", ".a", ".src", "..b", "a.", "_a"]  # dotted twins of ordinary names: folder keys are whole names
+    names = ["a", "b", "src", "x.y", ".a", ".src", "..b", "a.", "_a", "[id]", "i", "a?", "ab", "s*"]  # + names that are glob patterns (and what they would match)  # dotted twins of ordinary names: folder keys are whole names
     fns = [("f.py", "Python"), ("g.c", "C"), ("h.js", "JavaScript"), ("h2.js", "JavaScript"), ("i.py", "Python"), ("Main.java", "Java"), ("Main2.java", "Java"), ("a_test.py", "Python"), ("src2.c", "C"), ("b.py", "Python")]  # names that start with a directory name
     n = rng.randint(0, 12)
     seen, files = set(), []
